@@ -640,6 +640,50 @@ def eval_c18(batches, tier, seed, known, info):
             out['evaluations'] += 1
             if (v2['static'] or {}).get('funcSha') != base['static']['funcSha']:
                 out['violations'].append({'kind': 'excluding the unmappable field does not restore the original output', 'variant': v2['dir']})
+        # a nested message shared by two selected types holds the unmappable field; it is excluded BY FULL PATH below one of them
+        # only: that type is generated whole (identical to the base), the other one is skipped - in both role assignments
+        shared_done = 0
+        for mname in deep:
+            if shared_done >= (1 if tier == 'quick' else 3):
+                break
+            if not (find_msg(b['case'], mname) or {}).get('fields'):
+                continue
+            per_root = {}
+            for r in roots:
+                occ_r = occurrences(b['case'], [r])
+                if any(f.get('embed') for (p_, tn_, f, m_) in occ_r if f.get('typeName') == mname and f.get('type') == 'message'):
+                    per_root = {}
+                    break
+                ps = sorted({p_ for (p_, tn_, f, m_) in occ_r if f.get('typeName') == mname and f.get('type') == 'message'})
+                if ps:
+                    per_root[r] = ps
+            if len(per_root) < 2:
+                continue
+            shared_done += 1
+            ra, rb = sorted(per_root)[:2]
+            for fail_root, keep_root in ((ra, rb), (rb, ra)):
+                c = copy.deepcopy(b['case'])
+                find_msg(c, mname)['fields'].append(bad_field('Zzbadmapfield'))
+                c['yaml']['excludeFields'] = (c['yaml'].get('excludeFields') or []) + [p_ + '.Zzbadmapfield' for p_ in per_root[keep_root]]
+                v = run_variant(info, f'c18shared-{mname}-{keep_root}', c)
+                out['evaluations'] += 1
+                st = v['static'] or {'funcs': [], 'funcSha': {}}
+                m = model_emit(v)
+                if (v['plugin'] or {}).get('exit') != 0:
+                    out['violations'].append({'kind': 'plugin fails as a whole instead of skipping the type', 'variant': v['dir']})
+                    continue
+                present = [f for f in funcs_of_type(keep_root) if f in st['funcs']]
+                mf = m.get('failed')
+                if mf is not None and keep_root in mf:
+                    continue      # the model itself says the kept root fails (it reaches the field on another way): not this scenario
+                if len(present) != 3:
+                    out['violations'].append({'kind': 'excluding the unmappable field by full path below one type does not restore that type while another selected type fails on it',
+                                              'variant': v['dir'], 'type': keep_root, 'failing_type': fail_root, 'shared_message': mname, 'present': present,
+                                              'stderr': (v['plugin'].get('stderr') or '')[-300:]})
+                elif any(st['funcSha'].get(f) != base['static']['funcSha'].get(f) for f in present):
+                    out['violations'].append({'kind': 'a type restored by exclusion differs from the original', 'variant': v['dir'], 'type': keep_root})
+                if mf is not None and fail_root in mf and any(f in st['funcs'] for f in funcs_of_type(fail_root)):
+                    out['violations'].append({'kind': 'a type with an unmappable field is generated partially or silently', 'variant': v['dir'], 'type': fail_root})
         if len(out['samples']) < 2:
             out['samples'].append({'batch': b['dir'], 'targets': targets, 'roots': roots})
     out['coverage'] = {'traces_validated_against_impl': out['evaluations'] - len(out['violations'])}
